@@ -35,6 +35,7 @@ def _patterns_C08(rep, spec, verbose=False, only=None):
     # divide-by-zero panic is part of the pattern obligations shared with C06
     obls += patterns.run_patterns(rep, spec, tier=rep.tier, verbose=verbose, only=only, which=('grid', 'compound'),
                                   select=lambda c: re.search(r'_(div|rem)_|^S_sh[lr]_\w+_by_int', c.name) is not None)       # (and shifts by counts of a signed type: the negative-count panic)
+    obls += patterns.run_c08_frames(rep, spec, verbose=verbose, only=only)
     return obls
 
 def _sites_C17(rep, spec, verbose=False, only=None):
